@@ -25,9 +25,19 @@ ASSUMPTIONS = ["garbage <= 8 bytes (ASCII <= 12 characters), delivered in one re
 K = 4
 
 
-def valid_frame(framing, hdr, b):
-    pdu = bytes([6]) + b           # Write Single Register request, 4 symbolic body bytes
-    return adu.ref_adu(framing, pdu, hdr)          # hdr = unit id
+VKINDS = {
+    # name: (decoder direction, pdu builder from 4 symbolic bytes, class name, check(message, b))
+    "fc6": ("req", lambda b: bytes([6]) + b, "WriteSingleRegisterRequest",
+            lambda r, b: r.address == b[0] * 256 + b[1] and r.value == b[2] * 256 + b[3]),
+    "fc16": ("req", lambda b: bytes([16]) + b[0:2] + bytes([0, 1, 2]) + b[2:4], "WriteMultipleRegistersRequest",
+             lambda r, b: r.address == b[0] * 256 + b[1] and list(r.values) == [b[2] * 256 + b[3]]),
+    "rsp3": ("rsp", lambda b: bytes([3, 4]) + b, "ReadHoldingRegistersResponse",
+             lambda r, b: list(r.registers) == [b[0] * 256 + b[1], b[2] * 256 + b[3]]),
+}
+
+
+def valid_frame(framing, hdr, b, vkind="fc6"):
+    return adu.ref_adu(framing, VKINDS[vkind][1](b), hdr)          # hdr = unit id
 
 
 def feed(rx, chunk, got, unit):
@@ -63,18 +73,18 @@ def no_straddle(framing, stream, gl, FL=0):
     assume(lnot(bad))
 
 
-def make_resync(framing, kind, G, fcbyte=None, per_read=1):
+def make_resync(framing, kind, G, fcbyte=None, per_read=1, vkind="fc6"):
     def resync(g: bytes, u: bytes, b: bytes) -> bool:
-        from pymodbus.factory import ServerDecoder
+        from pymodbus.factory import ServerDecoder, ClientDecoder
         assume(len(g) == G)
         assume(len(u) == 2)
         assume(len(b) == 4)
         unit, other = u[0], u[1]
         assume(1 <= unit <= 247)
-        frame = valid_frame(framing, unit, b)
+        frame = valid_frame(framing, unit, b, vkind)
         FL = len(frame)
         if framing == "binary":
-            c = crc16(bytes([unit, 6]) + b)
+            c = crc16(bytes([unit]) + VKINDS[vkind][1](b))
             hit = (unit == 0x7B) | (unit == 0x7D) | (lohi(c)[0] == 0x7B) | (lohi(c)[0] == 0x7D) | (lohi(c)[1] == 0x7B) | (lohi(c)[1] == 0x7D)
             for i in range(4):
                 hit = hit | (b[i] == 0x7B) | (b[i] == 0x7D)
@@ -121,7 +131,7 @@ def make_resync(framing, kind, G, fcbyte=None, per_read=1):
             stream = stream + frame
         if kind in ("raw", "badcheck", "truncated", "delims"):
             no_straddle(framing, stream, gl, FL)
-        rx = adu.framer_class(framing)(ServerDecoder())
+        rx = adu.framer_class(framing)(ServerDecoder() if VKINDS[vkind][0] == "req" else ClientDecoder())
         got = []
         feed(rx, garbage, got, unit)
         n_after_garbage = len(got)
@@ -144,10 +154,10 @@ def make_resync(framing, kind, G, fcbyte=None, per_read=1):
             return False
         # what was delivered for the valid frames is the frame's message
         for r in got[n_after_garbage:][-2:]:
-            if type(r).__name__ != "WriteSingleRegisterRequest" or r.unit_id != unit:
+            if type(r).__name__ != VKINDS[vkind][2] or r.unit_id != unit:
                 explain("late delivery of %s for unit %r", type(r).__name__, r.unit_id)
                 return False
-            if r.address != b[0] * 256 + b[1] or r.value != b[2] * 256 + b[3]:
+            if not VKINDS[vkind][3](r, b):
                 return False
         return True
     return resync
@@ -193,8 +203,15 @@ def obligations(tier):
         if tier != "quick":
             plan.append((framing, "badcheck", 6, None, 2))
             plan.append((framing, "truncated", 3, None, 1))
-    for framing, kind, G, fc, per in plan:
-        name = "%s.%s.%s.g%d%s" % ("resync" if per == 1 else "twoperread", framing, kind, G, "" if fc is None else ".fc%d" % fc)
+    plan = [x + ("fc6",) for x in plan]
+    # other valid-frame kinds (different lengths, response direction) after a foreign-unit / bad-check frame
+    for framing in ("rtu", "ascii", "binary"):
+        for vk in (("fc16", "rsp3") if tier != "quick" or framing == "rtu" else ("rsp3",)):
+            plan.append((framing, "foreign", 4, None, 1, vk))
+            if tier != "quick":
+                plan.append((framing, "badcheck", 6, None, 1, vk))
+    for framing, kind, G, fc, per, vk in plan:
+        name = "%s.%s.%s.g%d%s%s" % ("resync" if per == 1 else "twoperread", framing, kind, G, "" if fc is None else ".fc%d" % fc, "" if vk == "fc6" else ".valid-" + vk)
         fnd = ("KF-ascii-deaf-after-bad-frame",) if framing == "ascii" and kind in ("badcheck", "raw") else ()
         wf = None
         if framing == "ascii" and kind == "badcheck":
@@ -204,7 +221,7 @@ def obligations(tier):
             wf = "KF-rtu-split-or-multiple-frames"
         if per == 2 and framing == "binary":
             wf = "KF-binary-split-or-multiple-frames"
-        out.append(Obl(name, make_resync(framing, kind, G, fc, per), timeout=T, contracts=contracts[framing], lemmas=lem[framing], findings=fnd, whole_finding=wf,
-                       bounds="%s framing; garbage kind '%s' (%d symbolic bytes%s) in one read, then %d valid frames (unit, address, value symbolic), %d per read" % (
-                           framing, kind, G, "" if fc is None else ", function-code byte 0x%02X" % fc, K, per)))
+        out.append(Obl(name, make_resync(framing, kind, G, fc, per, vk), timeout=T, contracts=contracts[framing], lemmas=lem[framing], findings=fnd, whole_finding=wf,
+                       bounds="%s framing; garbage kind '%s' (%d symbolic bytes%s) in one read, then %d valid %s frames (unit and values symbolic), %d per read" % (
+                           framing, kind, G, "" if fc is None else ", function-code byte 0x%02X" % fc, K, vk, per)))
     return out
